@@ -257,6 +257,9 @@ pub fn run_flat(
         let mut g_non = 0u64;
         let mut g_fail = 0usize;
         let mut handle_failure = |f: String, violations: &mut Vec<String>, known: &mut BTreeMap<String, (usize, String)>| {
+            if std::env::var("VERIF_TRIAGE").is_ok() {
+                eprintln!("TRIAGE\t{}", f.chars().take(400).collect::<String>());
+            }
             match classify(&f) {
                 Some(id) if listed.contains(&id) => {
                     let e = known.entry(id).or_insert((0, f.clone()));
